@@ -184,6 +184,89 @@ func diffSets(a, b []string) (onlyA, onlyB []string) {
 	return
 }
 
+// focus restricts which differences a property's check reports (a TONL-only discrepancy is not a C01 violation).
+// Tokens: code prefixes (IMM, CTOR, TONL, PKGO), ANN:<kinds> (annotation kinds I K T M P), IGN (markers), PANIC, ALL.
+type focusSet struct {
+	all     bool
+	codes   []string
+	annKind string
+	ign     bool
+	panics  bool
+}
+
+var focus = focusSet{all: true}
+
+func setFocus(spec string) {
+	if spec == "" || spec == "ALL" {
+		focus = focusSet{all: true}
+		return
+	}
+	focus = focusSet{}
+	for _, t := range strings.Split(spec, ",") {
+		switch {
+		case t == "ALL":
+			focus.all = true
+		case t == "IGN":
+			focus.ign = true
+		case t == "PANIC":
+			focus.panics = true
+		case strings.HasPrefix(t, "ANN:"):
+			focus.annKind += t[4:]
+		default:
+			focus.codes = append(focus.codes, t)
+		}
+	}
+}
+
+func (f focusSet) code(k string) bool {
+	if f.all {
+		return true
+	}
+	c := k[strings.IndexByte(k, ':')+1:]
+	for _, p := range f.codes {
+		if strings.HasPrefix(c, p) {
+			return true
+		}
+	}
+	return false
+}
+
+func (f focusSet) filterCodes(l []string) []string {
+	var out []string
+	for _, k := range l {
+		if f.code(k) {
+			out = append(out, k)
+		}
+	}
+	return out
+}
+
+func (f focusSet) filterAnn(l []string) []string {
+	if f.all {
+		return l
+	}
+	var out []string
+	for _, a := range l {
+		if len(a) > 0 && strings.ContainsRune(f.annKind, rune(a[0])) {
+			out = append(out, a)
+		}
+	}
+	return out
+}
+
+func (f focusSet) panicRelevant(e string) bool {
+	if f.all || f.panics {
+		return true
+	}
+	an := map[string]string{"IMM": "immutabilitychecker", "CTOR": "constructorchecker", "TONL": "testonlychecker", "PKGO": "packageonlychecker"}
+	for _, c := range f.codes {
+		if a := an[c]; a != "" && strings.Contains(e, a) {
+			return true
+		}
+	}
+	return strings.Contains(e, "annotationreader") && f.annKind != "" || strings.Contains(e, "ignorereader") && f.ign
+}
+
 // compareModule records agreement / disagreement of every root package of a module run.
 func compareModule(sum *res.Summary, label string, dir string, cfg progCfg, outs []progOutcome, srcOf func(loc string) string) {
 	for _, o := range outs {
@@ -201,24 +284,39 @@ func compareModule(sum *res.Summary, label string, dir string, cfg progCfg, outs
 			continue
 		}
 		for _, e := range o.errors {
+			if !focus.panicRelevant(e) {
+				continue
+			}
 			d := res.Disagreement{Kind: "panic", Input: label + " " + o.pkgID + " [" + cfg.String() + "]", Impl: e, Model: strings.Join(o.model, ","), Clause: "C10: every analyzer terminates normally"}
 			sum.Disagree(d)
 		}
-		if a, b := strings.Join(o.implAnn, ","), strings.Join(o.modelAnn, ","); a != b && len(o.errors) == 0 {
+		if a, b := strings.Join(focus.filterAnn(o.implAnn), ","), strings.Join(focus.filterAnn(o.modelAnn), ","); a != b && len(o.errors) == 0 {
 			sum.Disagree(res.Disagreement{Kind: "impl-vs-spec", Input: label + " " + o.pkgID + " [" + cfg.String() + "]", Impl: a, Model: b,
 				Clause:  "annotations read (ReadAllAnnotations vs GGV.Model.Prog.readAnnotations: grammar C15 + attachment sites)",
 				Details: "the set of annotations the package exports as facts differs (I=immutable K=constructor T=testonly M=mutable P=packageonly; hex names)"})
 		}
-		if a, b := strings.Join(o.implMarkers, ","), strings.Join(o.modelMarkers, ","); a != b && len(o.errors) == 0 {
+		if a, b := strings.Join(o.implMarkers, ","), strings.Join(o.modelMarkers, ","); a != b && len(o.errors) == 0 && (focus.all || focus.ign) {
 			sum.Disagree(res.Disagreement{Kind: "impl-vs-spec", Input: label + " " + o.pkgID + " [" + cfg.String() + "]", Impl: a, Model: b,
 				Clause:  "@ignore markers (ReadIgnoreAnnotations vs GGV.Model.Prog.ignoreOps: scopes C07)",
 				Details: "the (start-end:codes) ranges of the package's @ignore comments differ"})
 		}
 		sum.AddN("annotations-read", len(o.implAnn))
 		sum.AddN("ignore-markers", len(o.implMarkers))
-		onlyImpl, onlyModel := diffSets(o.impl, o.model)
+		onlyImpl, onlyModel := diffSets(focus.filterCodes(o.impl), focus.filterCodes(o.model))
 		if len(onlyImpl) == 0 && len(onlyModel) == 0 {
 			continue
+		}
+		if len(o.errors) > 0 && !focus.all && !focus.panics {
+			// an analyzer of another category crashed: this category's own result is still judged, a crashed one is not
+			crashedMine := false
+			for _, e := range o.errors {
+				if focus.panicRelevant(e) {
+					crashedMine = true
+				}
+			}
+			if crashedMine {
+				continue // already reported as panic
+			}
 		}
 		var det []string
 		for _, k := range onlyImpl {
@@ -326,10 +424,11 @@ func srcLine(dir string) func(loc string) string {
 
 func corrProg(o corrOpts) *res.Summary {
 	sum := &res.Summary{Suite: "prog", Tier: o.tier, Seed: o.seed}
+	setFocus(o.extra["focus"])
 	r := rng.New(o.seed)
-	n := 60
+	n := 200
 	if o.tier == "thorough" {
-		n = 1200
+		n = 3000
 	}
 	if v := o.extra["n"]; v != "" {
 		fmt.Sscan(v, &n)
@@ -348,6 +447,20 @@ func corrProg(o corrOpts) *res.Summary {
 		seeds = []uint64{s}
 		n = 1
 		_ = bits
+	}
+	// corpus first: witnesses of past findings, the repository's own fixtures
+	if o.replay == "" && o.extra["nocorpus"] == "" {
+		croot, cdirs := corpusModules()
+		for _, d := range cdirs {
+			outs, err := runModule(d, cfg, true, false)
+			if err != nil {
+				sum.Notes = append(sum.Notes, "corpus module "+filepath.Base(d)+" not analysed: "+err.Error()[:min(len(err.Error()), 300)])
+				continue
+			}
+			compareModule(sum, "corpus:"+filepath.Base(d), d, cfg, outs, srcLine(d))
+			sum.AddN("corpus-packages", len(outs))
+		}
+		os.RemoveAll(croot)
 	}
 	const perLoad = 150
 	for lo := 0; lo < n; lo += perLoad {
